@@ -164,6 +164,65 @@ def mesh (j : Json) : R Json := do
       (← getBool j "symmetric") (getBoolD j "triangular" false) reg bs1 rs bs2))
   | k => throw s!"unknown mesh kind {k}"
 
+/-! ### matrix-operation templates -/
+
+def jX (c : XCmd Rat) : Json :=
+  let o (cls : String) (pars : List Rat) (extra : List (String × Json)) : Json :=
+    Json.mkObj ([("cls", Json.str cls), ("regs", natList c.regs), ("pars", jarr (pars.map jrat))] ++ extra)
+  match c.op with
+  | .sgate r φ => o "Sgate" [r, φ] []
+  | .s2gate r φ => o "S2gate" [r, φ] []
+  | .interferometer m mesh dr tol =>
+    o "Interferometer" [] [("mat", Json.str m), ("mesh", Json.str mesh), ("drop_identity", Json.bool dr), ("tol", jrat tol)]
+  | .gaussianTransform m v => o "GaussianTransform" [] [("mat", Json.str m), ("vacuum", Json.bool v)]
+  | .squeezed r φ => o "Squeezed" [r, φ] []
+  | .thermal n => o "Thermal" [n] []
+  | .vac => o "Vacuum" [] []
+  | .xgate x => o "Xgate" [x] []
+  | .zgate p => o "Zgate" [p] []
+
+def optStr (j : Json) (k : String) : Option String := (getStr j k).toOption
+def optBool (j : Json) (k : String) : Option Bool := (getBool j k).toOption
+def optRat (j : Json) (k : String) : Option Rat := match j.getObjVal? k with | .ok v => (asRat v).toOption | .error _ => none
+
+/-- `[[value, flag], …]` -/
+def valFlags (j : Json) (k : String) : R (List (Rat × Bool)) := do
+  (← getArr j k).mapM fun r => do
+    match (← r.getArr?).toList with
+    | [v, b] => do pure ((← asRat v), (← b.getBool?))
+    | _ => throw "valFlags entry"
+
+def getDefaults (j : Json) : R (IDefaults Rat) := do
+  let d ← j.getObjVal? "defaults"
+  pure ⟨← getStr d "mesh", ← getBool d "drop_identity", ← asRat (← d.getObjVal? "tol")⟩
+
+def matrixTemplate (j : Json) : R Json := do
+  let kind ← getStr j "kind"
+  let reg ← getNatList j "reg"
+  match kind with
+  | "graph" => do
+    pure (jarr ((graphEmbedCmds (← getDefaults j) 0 (← getBool j "identity") (← valFlags j "sq") (← getBool j "u_identity")
+      (optStr j "kw_mesh") reg).map jX))
+  | "bipartite" => do
+    pure (jarr ((bipartiteCmds 0 (← getBool j "identity") (← getBool j "self_drop") (← asRat (← j.getObjVal? "self_tol"))
+      (optStr j "kw_mesh") (optBool j "kw_drop") (optRat j "kw_tol") (← valFlags j "sq") (← getBool j "u_identity")
+      (← getBool j "v_identity") reg).map jX))
+  | "gtransform" => do
+    let sq ← (← getArr j "sq").mapM fun r => do
+      match (← r.getArr?).toList with
+      | [b, x, y] => do pure ((← b.getBool?), (← asRat x), (← asRat y))
+      | _ => throw "sq entry"
+    pure (jarr ((gaussianTransformCmds (← getDefaults j) (← getBool j "active") (← getBool j "vacuum") (optStr j "kw_mesh")
+      sq reg).map jX))
+  | "gaussian" => do
+    let modes ← (← getArr j "modes").mapM fun m => do
+      let r (k : String) : R Rat := do asRat (← m.getObjVal? k)
+      pure (⟨← getBool m "diagBig", ← r "diagR", ← getBool m "diagSmall", ← getBool m "rotBig", ← r "rotR", ← r "rotPhi",
+        ← getBool m "thBig", ← r "thNbar", ← getBool m "wBig", ← r "wNbar"⟩ : GMode Rat)
+    pure (jarr ((gaussianCmds 0 (← asRat (← j.getObjVal? "pi")) (← getBool j "pure") (← getBool j "is_diag")
+      (← getBool j "is_block_diag") (← getBool j "thermal_diag") modes (← valFlags j "xdisp") (← valFlags j "pdisp") reg).map jX))
+  | k => throw s!"unknown matrix template {k}"
+
 def handler (op : String) (j : Json) : Option (R Json) :=
   match op with
   | "c02.template" => some do
@@ -187,6 +246,7 @@ def handler (op : String) (j : Json) : Option (R Json) :=
     | .ok out => pure (Json.mkObj [("ok", natList (out.map Tree.id))])
     | .error e => pure (jErr e)
   | "c02.mesh" => some (mesh j)
+  | "c02.matrix_template" => some (matrixTemplate j)
   | _ => none
 
 end SFV.Drv.Decompose
